@@ -15,7 +15,7 @@ Obligations per (converter, K):
   O5 no store through dest on a path that returns an error
   O6 query mode and store mode reach returns of the same sign
 """
-from .facts import strip, cval, walk, walk_own, show, callee_name, children
+from .facts import walk_own, strip, cval, walk, walk_own, show, callee_name, children
 from .ival import Analysis, AV, type_range, ctype_test, join, INF
 from .core import Result, Broken, norm
 from .typemap import TypeMap, idname
@@ -428,6 +428,33 @@ def run_erange(prog, ctx=None):
                    "" if ok else "result of %s() reaches a success return (line %s) without any test of errno: out-of-range numerals saturate silently" % (callee_name(e), bad.get("l")),
                    {"call": norm(show(e, f))})
             res.count("strto_calls")
+        # the test reads what the conversion left in errno: errno is set to zero before the call (the C library only ever
+        # sets it), and nothing stores to errno on the way from the call to the test
+        estores = []
+        for b2, i2, e2 in f.elements():
+            for n2 in walk_own(e2):
+                if n2.get("k") == "bin" and n2.get("op", "").endswith("=") and n2["op"] not in ("==", "!=", "<=", ">="):
+                    l2 = strip(n2["a"], lvalue_to_rvalue=False)
+                    if l2.get("k") == "un" and l2.get("op") == "*" and any(m.get("k") == "call" and callee_name(m) == "__errno_location" for m in walk(l2["e"])):
+                        estores.append((b2, i2, n2))
+        dom = f.dominators()
+        for b, i, e in calls:
+            if not tests:
+                continue
+            zero = [(sb, si, sn) for sb, si, sn in estores if cval(sn["b"]) == 0 and sn["op"] == "=" and ((sb.id == b.id and si < i) or (sb.id != b.id and sb.id in dom[b.id]))]
+            ok = bool(zero)
+            res.ob("%s:%s:errno cleared" % (f.qn, callee_name(e)), ok, f, e.get("l", 0),
+                   "" if ok else "errno is not set to zero before %s(): a range error left over from earlier calls is taken for one of this conversion" % callee_name(e))
+            bad = None
+            after = f.reachable_from(b.id, avoid=tests)
+            for sb, si, sn in estores:
+                if (sb.id == b.id and si > i) or (sb.id != b.id and sb.id in after):
+                    # a store on the way to a test (not one on the error exit behind it)
+                    if any(t == sb.id or t in f.reachable_from(sb.id) for t in tests):
+                        bad = sn
+            ok = bad is None
+            res.ob("%s:%s:errno kept until tested" % (f.qn, callee_name(e)), ok, f, (bad.get("l") if bad else e.get("l", 0)) or f.line,
+                   "" if ok else "`%s` overwrites errno between %s() and the test that reads it: the test no longer sees the range error of the conversion" % (norm(show(bad, f)), callee_name(e)))
         # the range error alone decides: from the edge on which errno equals ERANGE no success return is reachable (a second
         # condition joined to the test - only overflow, only some values - lets part of the unrepresentable numerals through)
         for bid in sorted(tests):
